@@ -11,6 +11,14 @@ CLAIMED = {
    text="For every structural case within the bound (1..3 declared inputs, rank <= 3/4, each dimension fixed/param/unspecified, supplied rank around the declared one, missing / extra / initializer-shadowed inputs, both map iteration orders) the solver decides, for ALL int64 values of the fixed dim_values and all supplied extents in 1..6, that Run errs exactly when the signature is violated, returns no outputs on error, passes accepted tensors through, and that InputNames/InputShapes/InputDimSize report what is enforced (also after the caller scribbles over the returned shapes). Bounded model checking is the right level: the gate is pure integer/branching code whose interesting inputs (one mismatching dimension, one value out of 2^64) are exactly what a solver enumerates and tests cannot.",
    note="Assumes: tensors are shape-only (data never touched: any access beyond Shape()/Dtype() makes the run inconclusive); declared rank >= 1 with full type info; dim_value >= 1." + NOTE_COMMON,
    design="DESIGN.md section 4, C13"),
+ "C12": dict(
+   text="For each of the 11 element types, both encodings, declared shapes with up to 4 elements and every payload length around the expected one, every payload byte / typed element is a solver variable: the check decides that TensorFromProto (with the real bytes.Reader/binary.LittleEndian loops executed symbolically) yields the declared shape, dtype and the little-endian / narrowed value of every element for ALL bit patterns, or an error and never a panic; unknown data_type codes are one symbolic int32. GraphProto.Params is checked with several initializers sharing one payload. Bounded model checking fits: the code is byte/offset arithmetic where the failing inputs are single lengths or codes.",
+   note="Assumes element count <= 4 is representative for the (uniform) reader loops; SMT-LIB has a single NaN so NaN payload bits are outside; typed BOOL entries restricted to 0/1. One known finding (typed-field fallback for unsupported data_type codes) is listed in known_findings.json." + NOTE_COMMON,
+   design="DESIGN.md section 4, C12"),
+ "C15": dict(
+   text="For all 55 registered operators (names/arity read from /repo at run time), every input count 0..max+2, nil at every subset of optional positions, and lists passed with spare capacity, the element type at each position is ONE symbolic variable over the 14-type universe, so a single symbolic run per case decides all 14^k type combinations: accepted iff arity and per-position constraints (and PRelu's equality) allow, never a panic, padded with absent inputs, tensors passed through by identity. Registry independence is decided by fingerprinting operator state before/after Init of another instance; unknown names use an opaque string unequal to every literal.",
+   note="Oracle is relative to each operator's own declared min/max/type constraints, as the property states. Tensors are shape-only with symbolic dtype." + NOTE_COMMON,
+   design="DESIGN.md section 4, C15"),
 }
 NA_REASON = "check not built yet (engine under construction in this session); will be claimed once its bounds run clean"
 checks = []
